@@ -47,11 +47,25 @@ def current():
     return {p: file_hash(os.path.join(REPO, p)) for p in files}
 
 
+def head_hashes():
+    """hashes of the committed state (HEAD) of the repository at REPO"""
+    import subprocess
+    files = sorted({p for fs in anchors().values() for p in fs})
+    base = {}
+    for p in files:
+        src = subprocess.run(["git", "-C", REPO, "show", "HEAD:" + p], stdout=subprocess.PIPE, text=True).stdout
+        base[p] = file_hash(p, src)
+    return base
+
+
 def changed_files(prop):
     if not os.path.exists(BASE):
         return []
     with open(BASE) as f:
         base = json.load(f)
+    if base.get("__python__") != sys.version.split()[0]:
+        # `ast.dump` differs between interpreter versions: fall back to the committed state
+        base = head_hashes()
     cur = current()
     return [p for p in anchors().get(prop, []) if cur.get(p) != base.get(p)]
 
@@ -60,11 +74,8 @@ if __name__ == "__main__":
     if "--update" in sys.argv:
         # baseline = the COMMITTED state of /repo (HEAD), never a dirty working tree
         import subprocess
-        files = sorted({p for fs in anchors().values() for p in fs})
-        base = {}
-        for p in files:
-            src = subprocess.run(["git", "-C", REPO, "show", "HEAD:" + p], stdout=subprocess.PIPE, text=True).stdout
-            base[p] = file_hash(p, src)
+        base = head_hashes()
+        base["__python__"] = sys.version.split()[0]
         with open(BASE, "w") as f:
             json.dump(base, f, indent=1, sort_keys=True)
         print("baseline written for", subprocess.run(["git", "-C", REPO, "rev-parse", "--short", "HEAD"], stdout=subprocess.PIPE, text=True).stdout.strip())
